@@ -299,6 +299,7 @@ type World struct {
 	rawID     *rawIDState
 	shapeCase *shapeCase
 	overrun   *overrunCase
+	fuzz      *fuzzCase
 	vstreams  map[int]*grpctunnel.VerifStream
 	ConnMeta  map[int]ConnMeta
 	wire      map[int]*wireConn
